@@ -66,6 +66,23 @@ def gram_report(A, At, tol=1e-10):
     return rep
 
 
+def adjoint_is_inverse(A, At, tol=1e-9):
+    """True if the adjoint offered acts like A.inverse on a basis of the range (Fourier-type operators)."""
+    try:
+        inv = A.inverse
+        ran, dom = A.range, A.domain
+        d = 0.0
+        sc = 1e-300
+        for y in util.basis(ran):
+            a = util.to_cvec(dom, At(y))
+            b = util.to_cvec(dom, inv(y))
+            d = max(d, float(np.abs(a - b).max()))
+            sc = max(sc, float(np.abs(b).max()))
+        return d <= tol * sc
+    except Exception:
+        return False
+
+
 def failure_kind(rep, tol=1e-10):
     """Mechanism class of a failed identity."""
     if rep.get('relerr_plain', 1) <= tol:
@@ -77,4 +94,6 @@ def failure_kind(rep, tol=1e-10):
 
 def weights_relation(dom, ran):
     """Value-free description of how domain and range are weighted (for signatures)."""
-    return 'dom[%s]->ran[%s]' % (util.weighting_tag(dom), util.weighting_tag(ran))
+    fd = 'c' if util.space_complex(dom) else 'r'
+    fr = 'c' if util.space_complex(ran) else 'r'
+    return 'dom[%s;%s]->ran[%s;%s]' % (fd, util.weighting_tag(dom), fr, util.weighting_tag(ran))
